@@ -9,6 +9,8 @@ use crate::util::*;
 use serde_json::json;
 
 pub struct C05 {
+    /// (language, menu of 3 titles, store length range): many records, limit 1, all queries on ONE store object
+    crowded: Vec<(L, Vec<String>, u32, u32)>,
     sets: Vec<HlSet>,
     prefix_sets: Vec<(L, String, Titles)>,
     typo_sets: Vec<(L, String, Titles)>,
@@ -37,7 +39,7 @@ pub fn suffixed_words(l: L) -> Vec<String> {
 
 impl C05 {
     pub fn new(tier: Tier) -> C05 {
-        let sets = hl_sets(&Bounds { t: tier.pick(5, 6), q: tier.pick(4, 5), words: tier.pick(2, 3), corpus: true, fams: vec![1, 2, 4, 6] });
+        let sets = hl_sets(&Bounds { t: tier.pick(5, 6), q: tier.pick(4, 5), words: tier.pick(2, 3), corpus: true, pairs: false, fams: vec![1, 2, 4, 6] });
         let mut prefix_sets = Vec::new();
         let mut corpus = corpus_en_words();
         corpus.extend(corpus_ecommerce_tokens());
@@ -53,7 +55,49 @@ impl C05 {
             typo_sets.push((l, "typo-queries:corpus-words>=6".to_string(), Titles::List(long_corpus.clone())));
             typo_sets.push((l, "typo-queries:stem+suffix-words".to_string(), Titles::List(suffixed_words(l))));
         }
-        C05 { sets, prefix_sets, typo_sets }
+        let mut crowded = Vec::new();
+        for l in if tier == Tier::Thorough { LANGS.to_vec() } else { vec![L::None, L::Ru] } {
+            let (v, v2, c) = if l.is_cyrillic() { ('а', 'е', 'б') } else { ('a', 'e', 'b') };
+            // three-letter words that differ only in a first-letter vowel match each other fuzzily but share no gram
+            let menu = vec![format!("{}{}{}", v, c, v), format!("{}{}{}", v2, c, v), format!("{}{}{}", v, c, v2)];
+            crowded.push((l, menu, 11, tier.pick(11, 12)));
+        }
+        C05 { crowded, sets, prefix_sets, typo_sets }
+    }
+
+    /// Stores of 11..12 records with limit 1 (so the candidate cap of 10 cuts), every 3-letter query over
+    /// the same letters in sequence on one store object: clause (a) on every hit.
+    fn run_crowded(&self, k: usize, idx: u64, cx: &mut Cx) {
+        let (l, menu, lo, hi) = &self.crowded[k];
+        let l = *l;
+        let recs: Vec<Rec> = seq_at(3, *lo, *hi, idx).into_iter().enumerate().map(|(i, t)| rec(100 + i, &menu[t], i)).collect();
+        let Some(mut st) = cx.build_noted(l, &recs, Some(1), Some((SENT_LS, SENT_RS))) else { return };
+        cx.state();
+        let letters: Vec<char> = { let mut v: Vec<char> = menu.iter().flat_map(|m| m.chars()).collect(); v.sort(); v.dedup(); v };
+        let tgrams: Vec<std::collections::BTreeSet<Gram>> = recs.iter().map(|r| tok_record(l, &r.1).map(|t| text_grams(&t)).unwrap_or_default()).collect();
+        for qi in 0..seqs_len(letters.len() as u64, 3, 3) {
+            let q = string_at(&letters, 3, 3, qi);
+            let Some(qt) = tokq(l, &q) else { continue };
+            let qgrams = text_grams(&qt);
+            cx.eval();
+            let hits = match cx.search(&mut st, &q) {
+                Ok(h) => h,
+                Err(p) => {
+                    cx.undecided(&p, || format!("lang={} records={:?} query={:?}", l.tag(), recs, q));
+                    return;
+                }
+            };
+            for (id, got) in &hits {
+                cx.validated();
+                let i = id - 100;
+                if tgrams[i].intersection(&qgrams).next().is_none() {
+                    cx.fail("C05:unrelated-hit", || json!({"lang": l.tag(), "records": recs, "limit": 1, "queries_run_before_on_the_same_store": (0..qi).map(|j| string_at(&letters, 3, 3, j)).collect::<Vec<_>>(), "query": q, "unrelated_hit": got}));
+                } else {
+                    cx.nontrivial();
+                    cx.class("crowded:related-hit");
+                }
+            }
+        }
     }
 
     /// One-word titles x every query obtained by deleting one or two letters of the normalised word, typed
@@ -203,9 +247,15 @@ impl Prop for C05 {
         for (l, name, t) in &self.typo_sets {
             d.push(Dom::new(format!("{}/{}", l.tag(), name), t.len(), 100));
         }
+        for (l, _, lo, hi) in &self.crowded {
+            d.push(Dom::new(format!("{}/crowded stores {}..{} over 3 near-identical titles, limit 1, all 3-letter queries in sequence", l.tag(), lo, hi), seqs_len(3, *lo, *hi), 2000));
+        }
         d
     }
     fn run(&self, dom: usize, idx: u64, cx: &mut Cx) {
+        if dom >= self.sets.len() + self.prefix_sets.len() + self.typo_sets.len() {
+            return self.run_crowded(dom - self.sets.len() - self.prefix_sets.len() - self.typo_sets.len(), idx, cx);
+        }
         if dom >= self.sets.len() + self.prefix_sets.len() {
             let (l, _, t) = &self.typo_sets[dom - self.sets.len() - self.prefix_sets.len()];
             return self.run_typos(*l, t, idx, cx);
@@ -297,7 +347,7 @@ impl Prop for C05 {
         }
     }
     fn rule(&self) -> String {
-        "sweep A: every title as a one-record store and inside two three-record stores (limit 10 and limit 1) x every query with at least one word, sentinel markers; every hit must share a gram (trigram or 1-/2-letter word start, recomputed from the public tokeniser) with the query and no span may exceed the typed stretch by more than one normalised character. sweep C (typo queries): every one-word title of the corpus (>= 6 letters) and of a stem+suffix word list per language x every query obtained by deleting one or two letters, typed unfinished and finished - same two clauses. sweep B (exact-prefix clause): every one-word title x every prefix of its normalised word ending in a letter or digit; the single span must cover exactly the typed characters of the original. Non-trivial = A: hit with a span whose length differs from the typed stretch (fuzzy / partial / multi-word); B: every validated prefix.".into()
+        "sweep A: every title as a one-record store and inside two three-record stores (limit 10 and limit 1) x every query with at least one word, sentinel markers; every hit must share a gram (trigram or 1-/2-letter word start, recomputed from the public tokeniser) with the query and no span may exceed the typed stretch by more than one normalised character. sweep C (typo queries): every one-word title of the corpus (>= 6 letters) and of a stem+suffix word list per language x every query obtained by deleting one or two letters, typed unfinished and finished - same two clauses. sweep D (crowded stores): every store of 11..12 records over three near-identical 3-letter titles with limit 1 (the candidate cap cuts), all 27 three-letter queries in sequence on one store object - clause (a). sweep B (exact-prefix clause): every one-word title x every prefix of its normalised word ending in a letter or digit; the single span must cover exactly the typed characters of the original. Non-trivial = A: hit with a span whose length differs from the typed stretch (fuzzy / partial / multi-word); B: every validated prefix.".into()
     }
     fn assumptions(&self) -> Vec<String> {
         vec![
